@@ -104,9 +104,9 @@ func (e *Engine) callFunc(st *State, fn *ssa.Function, binds []Val, args []Val, 
 		c = e.P.contracts[e.P.funcKey(fn.Origin())]
 	}
 	if c == nil {
-		c = e.P.libContracts[fn.String()]
+		c = e.P.libContracts[stripTypeArgs(fn.String())]
 		if c == nil && fn.Origin() != nil {
-			c = e.P.libContracts[fn.Origin().String()]
+			c = e.P.libContracts[stripTypeArgs(fn.Origin().String())]
 		}
 		if c != nil {
 			e.usedLib[c.Key] = true
@@ -508,7 +508,7 @@ func singleElem(v ssa.Value) (int, bool) {
 
 func (e *Engine) applyContract(st *State, c *Contract, fn *ssa.Function, sig *types.Signature, args []Val, site ssa.Instruction, k Cont) {
 	fr := st.top()
-	env := &Env{e: e, st: st, fr: fr, old: st.snapshot(), params: map[string]Val{}, bound: map[string]Val{}, pkg: c.Pkg, contract: c, callee: true}
+	env := &Env{e: e, st: st, fr: fr, old: st.snapshot(), params: map[string]Val{}, bound: map[string]Val{}, pkg: c.Pkg, contract: c, callee: true, typeFn: fn}
 	// bind parameters
 	names := e.paramNames(c, fn, sig)
 	if len(names) != len(args) {
@@ -550,6 +550,11 @@ func (e *Engine) applyContract(st *State, c *Contract, fn *ssa.Function, sig *ty
 	env.results = rs
 	env.inEnsures = true
 	for _, en := range c.Ensures {
+		// clauses labelled local-* talk about the callee's internal ghost state
+		// (e.g. the word seen by its CAS); they are proved there but not exported.
+		if strings.HasPrefix(en.Label, "local-") {
+			continue
+		}
 		st.assume(e.evalBool(st, env, en.E))
 	}
 	if c.Kind == "lib" || c.Trusted {
@@ -713,6 +718,9 @@ func (e *Engine) resolveModifies(st *State, env *Env, m string) modLoc {
 		}
 	}
 	base := e.evalSpec(st, env, sel.X)
+	if h, srt, _, ok := e.absFieldOf(base.Typ, sel.Name); ok {
+		return modLoc{heap: h, sort: srt, ref: base.T}
+	}
 	pt, ok := base.Typ.Underlying().(*types.Pointer)
 	if !ok {
 		limitf("modifies %s: base is not a pointer", m)
@@ -807,4 +815,21 @@ func (e *Engine) checkFrame(st *State, fn *ssa.Function, c *Contract, env *Env) 
 			e.addObl(st, fmt.Sprintf("%s.frame.%s", e.oblPrefix(fn), h), "frame", "objects existing at entry unchanged outside modifies", f)
 		}
 	}
+}
+
+// stripTypeArgs removes [..] type argument lists from a function name.
+func stripTypeArgs(s string) string {
+	var b strings.Builder
+	d := 0
+	for _, c := range s {
+		switch {
+		case c == '[':
+			d++
+		case c == ']':
+			d--
+		case d == 0:
+			b.WriteRune(c)
+		}
+	}
+	return b.String()
 }
